@@ -26,7 +26,14 @@ def handle_event_obligations(chk, prop):
         return obs[name]
 
     total_paths = [0]
-    for k in pendings:
+    # Which summariser states occur BETWEEN two handle_event calls?  Only `InProgress` is known by name; the others are
+    # found by running the code: start from InProgress, feed every item, collect the state the call ends in, repeat.
+    # (A state that exists only inside one call - "finished, summary not written yet" - is not a pre-state of any call.)
+    nstates = len(ix.State)
+    edges = {}
+    reach = None
+    for k in (0,) + tuple(pendings):
+        collecting = reach is None
         ex, M = chk.new_exec(loop_bound=6)
         M.opaque_bodies |= {'Styles::new', 'Styles::apply_coloring', '<impl>::summary', 'Colored::coloring'}
         M.allow_havoc_mut |= {'Styles::apply_coloring'}
@@ -88,9 +95,12 @@ def handle_event_obligations(chk, prop):
                      'terms': {'K2.feature': k2f, 'K2.rule?': k2rd, 'K2.rule': k2r, 'K2.scenario': k2s}}
             return {'self': cell.v, 'polls': polls, 'log': list(ex_.env.get('log', [])), 'input': evv, 'frame': frame}
 
-        def on_end(ex_, rec, S=S, E=E, M=M, state_d=state_d, k=k):
+        def on_end(ex_, rec, S=S, E=E, M=M, state_d=state_d, k=k, collecting=collecting):
             kind, res, pc, dec = rec
-            total_paths[0] += 1
+            if not collecting:
+                total_paths[0] += 1
+            elif kind != 'ok':
+                return
             if kind != 'ok':
                 o = ob('completes')
                 if kind == 'panic' and 'overflow' in str(res):
@@ -110,6 +120,20 @@ def handle_event_obligations(chk, prop):
                 for n in ix.Stats:
                     post['%s_%s' % (pfx, n)] = fld(st, ix.Stats[n])
             st_post = M.discr(ex_, ex_.field_of(sv, None, ix.S['state'], 'writer::summarize::State'))
+            if collecting:
+                for v_ in range(nstates):
+                    ex_.solver.push()
+                    ex_.solver.add(state_d == bv(v_))
+                    if ex_.check():
+                        pv = ex_.solver.model().eval(st_post, model_completion=True)
+                        if z3.is_bv_value(pv):
+                            edges.setdefault(v_, set()).add(pv.as_long())
+                    ex_.solver.pop()
+                return
+            # judged from the states a call can start in
+            ex_.add(z3.Or(*[state_d == bv(r_) for r_ in sorted(reach)]))
+            if not ex_.check():
+                return
             terms = {'state': state_d, 'res': E.res, 'top': E.top, 'fe': E.fe, 're': E.re, 'sc': E.sc.sc, 'polls': bv(res['polls'])}
 
             def refute(o, claim):
@@ -158,11 +182,12 @@ def handle_event_obligations(chk, prop):
                 refute(ob('scenario-events-dispatched-with-own-feature-rule-scenario'), same_ev)
             # state machine + single summary write
             fin = E.top_is(ix, 'Finished')
-            exp_state = z3.If(z3.And(inprog, fin), bv(ix.State['FinishedAndOutput']),
-                              z3.If(state_d == bv(ix.State['FinishedButNotOutput']), bv(ix.State['FinishedAndOutput']), state_d))
-            refute(ob('state-machine'), st_post == exp_state)
+            ip = bv(ix.State['InProgress'])
+            # counting goes on until run-Finished and never comes back; what the finished state(s) are called is the code's business
+            refute(ob('state-machine'), z3.And(z3.Implies(z3.And(inprog, z3.Not(fin)), st_post == ip),
+                                               z3.Implies(z3.Or(z3.Not(inprog), fin), st_post != ip)))
             writes = [e for e in log if e['kind'] == 'inner_write_done']
-            want_write = z3.Or(z3.And(inprog, fin), state_d == bv(ix.State['FinishedButNotOutput']))
+            want_write = z3.And(inprog, fin)
             refute(ob('summary-written-exactly-once-right-after-run-Finished'), want_write == z3.BoolVal(len(writes) == 1))
             if len(writes) > 1:
                 ob('summary-written-exactly-once-right-after-run-Finished').verdict = 'violated'
@@ -180,9 +205,20 @@ def handle_event_obligations(chk, prop):
                     o.detail = 'summary written before the item was forwarded'
 
         ex.explore(run, on_end)
+        if collecting:
+            reach = {ix.State['InProgress']}
+            todo = [ix.State['InProgress']]
+            while todo:
+                for nx in edges.get(todo.pop(), ()):
+                    if nx not in reach:
+                        reach.add(nx)
+                        todo.append(nx)
+    inv_state = {v: k_ for k_, v in ix.State.items()}
+    chk.assumptions.append('Summarize states a handle_event call can start in (found by running the code from InProgress): %s' % sorted(inv_state.get(r_, r_) for r_ in reach))
     for name, o in obs.items():
         if o.verdict == 'violated' and name in ('parsing_errors=parser-error-items', 'nothing-counted-after-run-Finished',
-                                                'no-other-counter-touched-outside-handle_scenario', 'indicators-touched-by-scenario-events-only'):
+                                                'no-other-counter-touched-outside-handle_scenario', 'indicators-touched-by-scenario-events-only',
+                                                'summary-written-exactly-once-right-after-run-Finished', 'state-machine'):
             confirm_event(chk, o, prop, ix, name)
     w = chk.add(Obligation('%s.handle_event.witness' % prop, 'exploration'))
     w.kind = 'witness'
@@ -207,6 +243,8 @@ def confirm_event(chk, o, prop, ix, name):
             return None
     if name == 'indicators-touched-by-scenario-events-only':
         return confirm_frame(chk, o, prop)
+    if name in ('summary-written-exactly-once-right-after-run-Finished', 'state-machine'):
+        return confirm_summary_once(chk, o, prop)
     inprog = val('state') == ix.State['InProgress']
     inv = lambda d: {v: k for k, v in d.items()}  # noqa
     if val('res') == 1:
@@ -295,3 +333,33 @@ def confirm_frame(chk, o, prop):
     else:
         o.verdict = 'inconclusive'
         o.detail += ' | not reproduced natively (events of other brackets between the attempts of a retried scenario do not change how it is counted)'
+
+
+def confirm_summary_once(chk, o, prop):
+    """native: whatever is replayed after run-Finished (events, a second run-Finished - a Repeat wrapper whose filter selects
+    it does exactly that) the summary is written once, right after the first run-Finished, and nothing more is counted"""
+    import os
+    from checks import replay
+    d = os.path.join(common.EVID, 'replay')
+    os.makedirs(d, exist_ok=True)
+    one = ['ev started r=-', 'ev step 0 started r=-', 'ev step 0 passed r=-', 'ev finished r=-']
+    cases = [('finished-twice', ['ev run_started', 'ev feature_started'] + one + ['ev run_finished', 'ev run_finished']),
+             ('replay-after-finished', ['ev run_started', 'ev feature_started'] + one + ['ev run_finished'] + one + ['ev run_finished']),
+             ('no-finished', ['ev run_started', 'ev feature_started'] + one)]
+    devs = []
+    for label, evs in cases:
+        path = os.path.join(d, '%s-summary-once-%s.script' % (prop, label))
+        r, out = replay.run_script('\n'.join(['mode summarize', 'bg 0', 'own 1', 'rule 0'] + evs) + '\n', path)
+        chk.replays += 1
+        if r is None:
+            continue
+        want_w = 0 if label == 'no-finished' else 1
+        if r.get('summary_writes') != want_w or r.get('sc_passed') != 1 or r.get('st_passed') != 1:
+            devs.append((path, '%s: summary written %s time(s) (expected %d), scenarios passed %s, steps passed %s (expected 1, 1)' % (label, r.get('summary_writes'), want_w, r.get('sc_passed'), r.get('st_passed'))))
+    if devs:
+        chk.replay_files.append(devs[0][0])
+        o.replay = devs[0][0]
+        o.detail += ' | reproduced natively with the real Summarize: %s' % devs[0][1]
+    else:
+        o.verdict = 'inconclusive'
+        o.detail += ' | not reproduced natively (one summary, written after the first run-Finished; replayed items count nothing)'
